@@ -41,10 +41,12 @@ type world struct {
 	svc  *res.Service
 	conn *rconn.Conn
 	done chan error
-	obs  *qeObs
+	obsP atomic.Pointer[qeObs] // current observations (replaced by reuseHistory while callbacks may run)
 	beh  map[string]string // request id -> callback behaviour (guarded by bmu: set by the driver, read by callbacks)
 	bmu  sync.Mutex
 }
+
+func (w *world) obs() *qeObs { return w.obsP.Load() }
 
 func (w *world) setBeh(id, b string) {
 	w.bmu.Lock()
@@ -71,7 +73,8 @@ func listenerCount() int {
 }
 
 func newWorld(seed int64, gated bool, dur time.Duration, failSub bool) *world {
-	w := &world{tr: sched.NewTracer(seed), obs: &qeObs{}, beh: map[string]string{}}
+	w := &world{tr: sched.NewTracer(seed), beh: map[string]string{}}
+	w.obsP.Store(&qeObs{})
 	w.tr.AutoRoles = map[string]string{"ql.": "ql", "qx.": "timer"}
 	if gated {
 		w.tr.SetGated("ql.recv", "qx.enter", "qx.drained")
@@ -79,10 +82,10 @@ func newWorld(seed int64, gated bool, dur time.Duration, failSub bool) *world {
 	res.VerifHook = func(p string, a ...interface{}) {
 		if p == "ql.recv" && len(a) > 1 {
 			id := strings.TrimPrefix(fmt.Sprint(a[1]), "inbox.")
-			w.obs.mu.Lock()
-			w.obs.recv = append(w.obs.recv, id)
-			w.obs.bad = append(w.obs.bad, strings.HasPrefix(id, "bad"))
-			w.obs.mu.Unlock()
+			w.obs().mu.Lock()
+			w.obs().recv = append(w.obs().recv, id)
+			w.obs().bad = append(w.obs().bad, strings.HasPrefix(id, "bad"))
+			w.obs().mu.Unlock()
 		}
 		w.tr.Hook(p, a...)
 	}
@@ -125,7 +128,7 @@ func (w *world) startQuery() bool {
 	started := make(chan struct{})
 	err := w.svc.With("test.q", func(r res.Resource) {
 		r.QueryEvent(func(qr res.QueryRequest) {
-			o := w.obs
+			o := w.obs()
 			if atomic.LoadInt32(&o.busy) != 0 {
 				atomic.StoreInt32(&o.overlap, 1)
 			}
@@ -193,7 +196,7 @@ func (w *world) startQuery() bool {
 				Subject string `json:"subject"`
 			}
 			json.Unmarshal(m.Data, &p)
-			w.obs.subject = p.Subject
+			w.obs().subject = p.Subject
 		}
 	}
 	return true
@@ -203,7 +206,7 @@ func (w *world) startQuery() bool {
 func (w *world) sendReq(id string) {
 	var sub *rconn.Sub
 	for _, s := range w.conn.Subs() {
-		if s.Subject == w.obs.subject {
+		if s.Subject == w.obs().subject {
 			sub = s
 		}
 	}
@@ -217,11 +220,11 @@ func (w *world) sendReq(id string) {
 	case strings.HasPrefix(id, "badnoq"):
 		payload = `{}`
 	}
-	w.conn.DeliverTo(sub, w.obs.subject, "inbox."+id, []byte(payload))
+	w.conn.DeliverTo(sub, w.obs().subject, "inbox."+id, []byte(payload))
 }
 
 func (w *world) record(ids []string, failed, expired bool, src string) rec {
-	o := w.obs
+	o := w.obs()
 	o.mu.Lock()
 	defer o.mu.Unlock()
 	replies := [][]interface{}{}
@@ -387,10 +390,10 @@ func groupHistory(seed int64) rec {
 	release := make(chan struct{})
 	inside := make(chan struct{})
 	w.svc.With("test.other", func(res.Resource) {
-		atomic.StoreInt32(&w.obs.busy, 1)
+		atomic.StoreInt32(&w.obs().busy, 1)
 		close(inside)
 		<-release
-		atomic.StoreInt32(&w.obs.busy, 0)
+		atomic.StoreInt32(&w.obs().busy, 0)
 	})
 	<-inside
 	ids := []string{"r1", "r2"}
@@ -415,10 +418,10 @@ func shutdownHistory(seed int64) rec {
 	release := make(chan struct{})
 	inside := make(chan struct{})
 	w.svc.With("test.other", func(res.Resource) {
-		atomic.StoreInt32(&w.obs.busy, 1)
+		atomic.StoreInt32(&w.obs().busy, 1)
 		close(inside)
 		<-release
-		atomic.StoreInt32(&w.obs.busy, 0)
+		atomic.StoreInt32(&w.obs().busy, 0)
 	})
 	<-inside
 	sdDone := make(chan struct{})
@@ -451,7 +454,7 @@ func longHistory(seed int64, n int) rec {
 		}
 	}
 	time.Sleep(60 * time.Millisecond)
-	o := w.obs
+	o := w.obs()
 	o.mu.Lock()
 	defer o.mu.Unlock()
 	nils := 0
@@ -477,11 +480,11 @@ func reuseHistory(seed int64) rec {
 	}
 	var oldSub *rconn.Sub
 	for _, sb := range w.conn.Subs() {
-		if sb.Subject == w.obs.subject {
+		if sb.Subject == w.obs().subject {
 			oldSub = sb
 		}
 	}
-	oldSubject := w.obs.subject
+	oldSubject := w.obs().subject
 	w.setBeh("a1", "")
 	w.sendReq("a1")
 	time.Sleep(3*time.Millisecond + 25*time.Millisecond) // expired, listener gone
@@ -497,7 +500,7 @@ func reuseHistory(seed int64) rec {
 	}
 	// the next query events start with fresh observations
 	var sent []string
-	w.obs = &qeObs{}
+	w.obsP.Store(&qeObs{})
 	for k := 0; k < 1+rng.Intn(3); k++ {
 		if !w.startQuery() {
 			return nil
